@@ -144,6 +144,13 @@ class C03Case:
         self.count('builds')
         self.count('steps_executed', len(r.steps))
         self.check_single_producer(r, goals)
+        for out, inp in getattr(r, 'races', []):
+            self.vio('schedule-race', 'step {} read {} which another step '
+                     'wrote while it was in flight (missing dependency '
+                     'edge)'.format(out, inp), {'jobs>1'})
+        for out, inp in getattr(r, 'missing_at_start', []):
+            self.vio('schedule-race', 'step {} started before its input {} '
+                     'existed'.format(out, inp), {'jobs>1'})
         if self.w.snapshot('src') != src_before:
             self.vio('containment', 'building {} changed the source tree'
                      .format(list(goals)), {'op=build'})
@@ -234,6 +241,18 @@ class C03Case:
     def note_edit(self, edited):
         self.pending_must |= self.graph.downstream_of(edited)
         self.pending_may |= self.graph.downstream_of(edited, self.declared)
+        k = self.graph.producer.get(edited)
+        if k is not None:
+            # Ninja re-runs an edge whose output is newer than its deps-log
+            # record (a hand-modified object): allowed, not required; and
+            # whatever consumes its other outputs may follow
+            self.pending_may.add(k)
+            # ... and a hand-modified output is newer than its inputs, so an
+            # mtime-based tool can no longer know that it was out of date
+            self.pending_must.discard(k)
+            for f in self.graph.steps[k]['writes']:
+                self.pending_may |= self.graph.downstream_of(f,
+                                                             self.declared)
 
     def note_ran(self, r):
         ran = set(executed(r))
@@ -377,14 +396,14 @@ class Runner:
             if c.violations:
                 return
             libs = []
-            mk = w.read_build('Makefile') or ''
+            mk = w.read_build(c.sim.buildfile) or ''
             for st in c.proj.stmts():
                 if st.kind in ('library', 'static_library',
                                'shared_library') and st.facts.get('name'):
                     n = st.facts['name']
                     for cand in ('lib{}.so'.format(n), 'lib{}.a'.format(n)):
-                        if re.search(r'^{}:'.format(re.escape(cand)), mk,
-                                     re.M):
+                        if re.search(r'^(build )?{}[: ]'.format(
+                                re.escape(cand)), mk, re.M):
                             libs.append(cand)
             if libs:
                 c.build(libs, label='complete-libs')
@@ -504,9 +523,9 @@ def execute(root, proj, cfg, ops, online=None):
 def run_case(seed, root, params=None):
     params = params or {}
     rng = random.Random(seed)
-    backend = rng.choice(params.get('backends', ['make']))
+    backend = rng.choice(params.get('backends', ['make', 'ninja']))
     cfg = {'clock_mode': rng.choice(['strict', 'coarse']), 'bufsize': 4096,
-           'seed': seed}
+           'seed': seed, 'jobs': rng.choice([1, 2, 4, 8])}
     fault_mode = bool(params.get('fault_mode')) and rng.random() < 0.4
     proj = G.GraphGen(rng, backend).generate()
     ops = []
@@ -707,7 +726,7 @@ def summarise(case):
     return {
         'seed': case['seed'],
         'violations': [v.to_json() for v in case['violations']],
-        'stats': st,
+        'stats': dict(st, **{'backend.' + proj.backend: 1}),
         'nontrivial': st.get('band_checks_nonempty', 0) > 0,
         'shape': hashlib.sha256(shape.encode()).hexdigest()[:16],
         'digest': hashlib.sha256(repr(case['trace']).encode())
